@@ -1,4 +1,4 @@
-from runner import CbmcUnit, Entry
+from runner import CbmcUnit, Entry, PathUnit, PathEntry
 
 
 def units(tier):
@@ -14,4 +14,15 @@ def units(tier):
         defines=["NOPS=%d" % nops], race=True, validate=False, heap_max=64,
         assumptions=["operations are explored as atomic steps; that they are critical sections is the lockset obligation on the object's own bytes (heap storage of the vector is reached only through them)",
                      "<= 2 producers, trivially copyable payload, sequential consistency"],
-        stubs=["pthread_mutex_lock/unlock: lockset model (never contended in run-to-completion operations)"])]
+        stubs=["pthread_mutex_lock/unlock: lockset model (never contended in run-to-completion operations)"])] + [
+        PathUnit("value_path", "harness/C12_path.cpp", [PathEntry("vp_main_value", wall=900 if q else 6000, max_steps=(100000000 if q else 2000000000), max_paths=(300000 if q else 5000000),
+                 desc="TransactionalValue<two-word payload>, real std::mutex code, producer thread (2 assignments) vs consumer (6 x update/get), EVERY schedule with <= %d preemptions (also inside the operations): "
+                      "values never torn / always assigned ones / in order; update() true exactly when newer; last value delivered" % (3 if q else 4))],
+                 defines=["VP_PATH", "PREEMPT=%d" % (3 if q else 4)], native_defines=["VP_NATIVE_BUILD"], validate=False, replay_repeat=10,
+                 assumptions=["sequentially consistent interleavings; preemptions placed before and after mutex operations, before atomic stores / read-modify-writes; data races as such are decided by the lockset unit"],
+                 stubs=["pthread mutex: vp/llpath.py model"]),
+        PathUnit("buffer_path", "harness/C12_path.cpp", [PathEntry("vp_main_buffer", wall=900 if q else 6000, max_steps=(100000000 if q else 2000000000), max_paths=(300000 if q else 5000000),
+                 desc="TransactionalBuffer<int>, real std::mutex / std::vector code, 2 producer threads x 2 pushes vs consumer (size/empty/consume), EVERY schedule with <= %d preemptions: "
+                      "each element in exactly one batch, per-producer order" % (2 if q else 3))],
+                 defines=["VP_PATH", "PREEMPT=%d" % (2 if q else 3)], native_defines=["VP_NATIVE_BUILD"], validate=False, replay_repeat=10,
+                 assumptions=["sequentially consistent interleavings; preemptions placed before and after mutex operations"], stubs=["pthread mutex: vp/llpath.py model"])]
